@@ -91,6 +91,7 @@ type Rec struct {
 	Mates     uint64      `json:"stat_mates"`
 	Stales    uint64      `json:"stat_stalemates"`
 	Limit     float64     `json:"limit_ms"` // the engine's own time limit if time controlled
+	Allotted  float64     `json:"allotted_ms"` // time limit + extra time at the end of the search
 	RepRoot   bool        `json:"rep_root"` // position already occurred twice or clock >= 100
 	Cfg       string      `json:"cfg"`
 }
@@ -296,6 +297,7 @@ func runSearch(s *search.Search, cap *capture, j *Job, rec *Rec, watchdog time.D
 		}
 	}
 	rec.ElapsedMs = float64(time.Since(start).Microseconds()) / 1000
+	rec.Allotted = float64(s.VerifAllotted().Microseconds()) / 1000
 	if rec.Error != "" {
 		return true
 	}
@@ -438,6 +440,8 @@ func timeCtl(args []string) error {
 	fs := flag.NewFlagSet("timectl", flag.ContinueOnError)
 	inF := fs.String("grid", "", "TLC output with GRID lines")
 	outF := fs.String("trace", "", "ndjson trace to write")
+	bookDir := fs.String("bookdir", "", "directory with book_smalltest.txt: the first move of every ext-th game is searched by a real Search right after a real book move")
+	extEvery := fs.Int("ext", 1, "with -bookdir: every n-th game gets the real first search")
 	if err := fs.Parse(args); err != nil {
 		return err
 	}
@@ -455,6 +459,44 @@ func timeCtl(args []string) error {
 		0:  {"4k3/pppp1ppp/8/8/8/8/PPPP1PPP/4K3 w - - 0 1", "4k3/pppp1ppp/8/8/8/8/PPPP1PPP/4K3 b - - 0 1"},
 	}
 	s := search.NewSearch()
+	// the time ALLOTTED to a move is the budget plus what the search adds to it: the first search after a book move gets extra
+	// time. To see it a real Search plays a real book move (from the start position, with one of the repository's books) and is
+	// then started under clock control on a position outside the book, stopped at once, and asked what it was allowed to take.
+	var s2 *search.Search
+	start := position.NewPosition()
+	outOfBook := map[string]string{ // the start position is in the book: a position with the same phase and mover that is not
+		"rnbqkbnr/pppppppp/8/8/8/8/PPPPPPPP/RNBQKBNR w KQkq - 0 1": "rnbqkb1r/pppppppp/7n/8/8/7N/PPPPPPPP/RNBQKB1R w KQkq - 2 2",
+	}
+	if *bookDir != "" {
+		config.Settings.Search.UseBook = true
+		config.Settings.Search.BookPath = *bookDir
+		config.Settings.Search.BookFile = "book_smalltest.txt"
+		config.Settings.Search.BookFormat = "Simple"
+		config.Settings.Search.TTSize = 4
+		s2 = search.NewSearch()
+	}
+	allotted := func(fen string, sl *search.Limits) (time.Duration, error) {
+		bl := search.NewSearchLimits() // the book is asked in time controlled searches only
+		bl.TimeControl = true
+		bl.WhiteTime, bl.BlackTime = time.Minute, time.Minute
+		s2.StartSearch(*start, *bl)
+		s2.WaitWhileSearching()
+		if r := s2.LastSearchResult(); !r.BookMove {
+			return 0, fmt.Errorf("the book gave no move for the start position")
+		}
+		if o, ok := outOfBook[fen]; ok {
+			fen = o
+		}
+		q, _ := position.NewPositionFen(fen)
+		s2.StartSearch(*q, *sl)
+		s2.StopSearch()
+		s2.WaitWhileSearching()
+		if r := s2.LastSearchResult(); r.BookMove {
+			return 0, fmt.Errorf("position %s is in the book", fen)
+		}
+		return s2.VerifAllotted(), nil
+	}
+	games := 0
 	return readTagged(strings.Split(*inF, ","), "GRID", func(js string) error {
 		var g struct {
 			Time, Inc, MovesToGo, Phase, Stm, Opp int
@@ -503,6 +545,20 @@ func timeCtl(args []string) error {
 				return fmt.Errorf("time budget computation panicked: %s", perr)
 			}
 			b := int(budget.Microseconds() / 1000)
+			if k == 0 && s2 != nil {
+				games++
+				if games%*extEvery == 0 {
+					var a time.Duration
+					var aerr error
+					if perr := guard(func() { a, aerr = allotted(fens[g.Phase][g.Stm], sl) }); perr != "" {
+						return fmt.Errorf("first search after a book move panicked: %s", perr)
+					}
+					if aerr != nil {
+						return aerr
+					}
+					fmt.Fprintf(w, "{\"ev\":\"ext\",\"time\":0,\"inc\":%d,\"movestogo\":%d,\"phase\":%d,\"stm\":%d,\"opp\":%d,\"rem\":%d,\"b\":%d}\n", g.Inc, sl.MovesToGo, g.Phase, g.Stm, g.Opp, rem, int(a.Microseconds()/1000))
+				}
+			}
 			fmt.Fprintf(w, "{\"ev\":\"move\",\"time\":0,\"inc\":%d,\"movestogo\":%d,\"phase\":%d,\"stm\":%d,\"opp\":%d,\"rem\":%d,\"b\":%d}\n", g.Inc, sl.MovesToGo, g.Phase, g.Stm, g.Opp, rem, b)
 			if b > rem || rem-b+g.Inc < 0 {
 				break // the game is lost on time: the rest of it says nothing
